@@ -121,12 +121,16 @@ impl<'tx> Tx<'tx> {
         let mut freelist = db.inner.freelist.lock()?.clone();
         #[cfg(feature = "verif-hooks")]
         crate::verif_hooks::emit("begin:after_freelist", &[writable as u64], &[]);
-        let mut meta = db.inner.meta()?;
-        debug_assert!(meta.valid());
-        #[cfg(feature = "verif-hooks")]
-        crate::verif_hooks::emit("begin:after_meta", &[writable as u64, meta.tx_id], &[]);
-        {
+        // Choosing a snapshot (reading the header) and registering it (or, for a writer, deciding which
+        // pages to release) must be one atomic step with respect to other transactions beginning.
+        // Otherwise a reader that has read the header but is not yet registered is invisible to a writer
+        // that begins meanwhile, which then releases and overwrites pages of that reader's snapshot.
+        let mut meta = {
             let mut open_ro_txs = db.inner.open_ro_txs.lock().unwrap();
+            let mut meta = db.inner.meta()?;
+            debug_assert!(meta.valid());
+            #[cfg(feature = "verif-hooks")]
+            crate::verif_hooks::emit("begin:after_meta", &[writable as u64, meta.tx_id], &[]);
             if writable {
                 meta.tx_id += 1;
                 if open_ro_txs.len() > 0 {
@@ -146,7 +150,8 @@ impl<'tx> Tx<'tx> {
                 v.extend(freelist.verif_dump());
                 crate::verif_hooks::emit("tx_begin", &v, &[]);
             }
-        }
+            meta
+        };
         #[cfg(feature = "verif-hooks")]
         crate::verif_hooks::emit("begin:after_register", &[writable as u64, meta.tx_id], &[]);
         let freelist = Rc::new(RefCell::new(TxFreelist::new(meta.clone(), freelist)));
